@@ -108,6 +108,12 @@ fn val(n: &Number) -> f64 {
 fn check_kind<T: CurveInterpolation + Clone>(func: &str, kind: &str, interp: T) -> bool {
     for nodes in node_sets() {
         let n = nodes.len();
+        crate::CASES.fetch_add(1, std::sync::atomic::Ordering::Relaxed);
+        crate::EVALS.fetch_add(3 * 3 * queries(&nodes).len(), std::sync::atomic::Ordering::Relaxed);
+        {
+            let mut smp = crate::SAMPLE.lock().unwrap();
+            if smp.is_empty() { *smp = format!("{} curve on {} nodes supplied forwards / reversed / shuffled as f64, Dual and Dual2 nodes: values at and around every node against the closed form of the two bracketing nodes; after order switches values, gradients and Hessians against the formula's partial derivatives", kind, n); }
+        }
         let fwd: Vec<usize> = (0..n).collect();
         let mut rev = fwd.clone();
         rev.reverse();
@@ -165,6 +171,50 @@ fn check_kind<T: CurveInterpolation + Clone>(func: &str, kind: &str, interp: T) 
                         if !close(val(&v), exp) {
                             report("probe", func, &format!("{} curve, {} nodes, after set_ad_order sequence {:?} (at order {}), value at {}", kind, n, seq, o, q.date()), &format!("{}", val(&v)), &format!("{}", exp), false);
                             return true;
+                        }
+                        if (kind == "log_linear" || kind == "linear_zero_rate") && o >= 1 {
+                            // the formula is y1^a * y2^b (a, b from the rule): dV/dy1 = V*a/y1, dV/dy2 = V*b/y2, second derivatives
+                            // V*a*(a-1)/y1^2, V*a*b/(y1*y2), V*b*(b-1)/y2^2; zero for every other node
+                            let keys: Vec<f64> = nodes.iter().map(|(d, _)| ts(d)).collect();
+                            let i = interval(&keys, ts(q));
+                            let (y1, y2) = (nodes[i].1, nodes[i + 1].1);
+                            let (a, b) = if kind == "log_linear" {
+                                let w = (ts(q) - keys[i]) / (keys[i + 1] - keys[i]);
+                                (1.0 - w, w)
+                            } else {
+                                let (t1, t2, t) = (keys[i] - keys[0], keys[i + 1] - keys[0], ts(q) - keys[0]);
+                                if t1 == 0.0 { (0.0, t / t2) } else { let w = (t - t1) / (t2 - t1); (t * (1.0 - w) / t1, t * w / t2) }
+                            };
+                            let vv = val(&v);
+                            let tags: Vec<String> = (0..n).map(|j| format!("crv{}", j)).collect();
+                            let g: Vec<f64> = match &v {
+                                Number::Dual(d) => d.gradient1(tags.clone()).to_vec(),
+                                Number::Dual2(d) => d.gradient1(tags.clone()).to_vec(),
+                                Number::F64(_) => vec![f64::NAN; n],
+                            };
+                            for j in 0..n {
+                                let e = if j == i { vv * a / y1 } else if j == i + 1 { vv * b / y2 } else { 0.0 };
+                                if (g[j] - e).abs() > 1e-9 * (1.0 + e.abs()) {
+                                    report("probe", func, &format!("{} curve, {} nodes at order {}, d value({}) / d node {} (tag crv{})", kind, n, o, q.date(), j, j), &format!("{}", g[j]), &format!("{}", e), false);
+                                    return true;
+                                }
+                            }
+                            if let Number::Dual2(d) = &v {
+                                use rateslib::dual::Gradient2;
+                                let h = d.gradient2(tags.clone());
+                                for j in 0..n {
+                                    for l in 0..n {
+                                        let e = if j == i && l == i { vv * a * (a - 1.0) / (y1 * y1) }
+                                            else if j == i + 1 && l == i + 1 { vv * b * (b - 1.0) / (y2 * y2) }
+                                            else if (j == i && l == i + 1) || (j == i + 1 && l == i) { vv * a * b / (y1 * y2) }
+                                            else { 0.0 };
+                                        if (h[[j, l]] - e).abs() > 1e-9 * (1.0 + e.abs()) {
+                                            report("probe", func, &format!("{} curve, {} nodes at order 2, d2 value({}) / d node {} d node {}", kind, n, q.date(), j, l), &format!("{}", h[[j, l]]), &format!("{}", e), false);
+                                            return true;
+                                        }
+                                    }
+                                }
+                            }
                         }
                         if kind == "linear" && o >= 1 {
                             // gradient w.r.t. the node tags: (1-w) on the left node of the interval, w on the right node, 0 elsewhere
